@@ -63,7 +63,7 @@ class G:
     # ---- sampling of the value-like non-terminals
     def num(self, lo, hi, signed=False):
         r = self.rng
-        cands = [lo, hi, 0, 1, (lo + hi) // 2]
+        cands = [c for c in (lo, hi, 0, 1, (lo + hi) // 2) if lo <= c <= hi]
         v = r.choice(cands) if r.random() < 0.5 else r.randint(lo, hi)
         if v < 0:
             return str(v)
@@ -326,7 +326,7 @@ def data_cases(g, thorough, count):
 def errors(g, thorough, count):
     """valid program x one semantic mutation"""
     r = g.rng
-    base = "v: db 5\nw: dw 7\ndef f {\ninc bx\n}\nstart:\nmov ax, 1\nlab:\nadd ax, word w\njnz lab\ncall f\nhlt\n"
+    base = "v: db 5\nw: dw 7\ndef f {\ninc bx\n}\nstart:\nmov ax, 1\nadd ax, word w\njnz lab\ncall f\nlab:\nhlt\n"
     muts = [
         ("jnz lab", "jnz nolabel"), ("jnz lab", "jnz v"), ("lab:", "lab:\nlab:"), ("def f {", "def f {\n}\ndef f {"),
         ("add ax, word w", "add ax, word lab"), ("add ax, word w", "add ax, word nolabel"), ("mov ax, 1", "mov ax, offset lab"),
@@ -386,11 +386,176 @@ def macros(g, thorough, count):
         out.append("wv: dw 1\n" + "\n".join(lib) + "\nstart:\nlab:\n" + body + "\nhlt\n")
     return out
 
+
+# ------------------------------------------------------------------------------------------------
+# whole-run cases for the CLI (kind `cli`): terminating programs
+
+SAFE_BODY = ["inc ax", "dec bx", "add dx, 3", "sub ax, bx", "xor bx, dx", "not dx", "mov word [0x200], ax", "mov byte [bx], dl", "print reg",
+             "print flags", "push ax", "pop dx", "shl ax, 1", "rcr dx, 3", "neg bx", "cmp ax, dx", "test ax, 1", "stc", "cmc", "xchg ax, dx",
+             "lahf", "sahf", "cbw", "mul bl", "lods byte", "stos word", "mov si, di"]
+
+def run_prog(g, with_int3=False, with_tf=False):
+    """structured terminating program: procedures first, forward jumps, bounded LOOPs"""
+    r = g.rng
+    dlines, dlabels = rand_data(g, r.randrange(0, 4))
+    procs, fns = [], []
+    for i in range(r.randrange(0, 3)):
+        name = "f%d" % i
+        body = [r.choice(SAFE_BODY) for _ in range(r.randrange(1, 4))]
+        if fns and r.random() < 0.5:
+            body.insert(r.randrange(len(body) + 1), "call " + r.choice(fns))
+        if r.random() < 0.3:
+            body.append(r.choice(["ret", "RET"]))
+        if r.random() < 0.3:
+            body.insert(0, "pl%d:" % i)
+        procs.append("def %s {\n%s\n}" % (name, "\n".join(body)))
+        fns.append(name)
+    nblocks = r.randrange(1, 6)
+    labels = ["B%d" % i for i in range(nblocks + 1)]
+    seq = []
+    for b in range(nblocks):
+        seq.append(labels[b] + ":")
+        kind = r.randrange(6)
+        if kind == 0:
+            k = r.randrange(0, 5)
+            seq += ["mov cx, %d" % (k if k else r.choice([1, 2, 3])), "W%d:" % b] + [r.choice(SAFE_BODY) for _ in range(r.randrange(1, 3))] + [r.choice(["loop", "LOOP"]) + " W%d" % b]
+        elif kind == 1 and fns:
+            seq.append("call " + r.choice(fns))
+        elif kind == 2:
+            tgt = r.choice(labels[b + 1:])
+            seq += [r.choice(SAFE_BODY), r.choice(["jmp", "jz", "jnz", "JC", "jnbe", "jle", "js", "jpo", "jcxz"]) + " " + tgt, r.choice(SAFE_BODY)]
+        elif kind == 3:
+            seq += [rand_instr(g, labels[b + 1:], fns, dlabels) for _ in range(r.randrange(1, 4))]
+        elif kind == 4 and dlabels:
+            l = r.choice(dlabels)
+            seq += ["mov bx, offset %s" % l, "mov al, byte [bx]", "print mem offset %s : 4" % l]
+        else:
+            seq += [r.choice(SAFE_BODY) for _ in range(r.randrange(1, 4))]
+        if with_int3 and r.random() < 0.4:
+            seq.append("int 3")
+    if with_tf:
+        seq.insert(1, "mov ax, 0x0100\npush ax\npopf")
+    seq.append(labels[nblocks] + ":")
+    tail = r.choice(["hlt", "", "print reg", "hlt\nmov ax, 0xDEAD\nprint reg"])
+    main = "\n".join(seq) + "\n" + tail
+    if r.random() < 0.5:
+        main = "start:\n" + main
+    else:
+        # start in the middle: everything before it must not run
+        main = "mov ax, 0xBAD\nprint reg\nstart:\n" + main
+    src = "\n".join(dlines) + "\n" + "\n".join(procs) + "\n" + main + r.choice(["\n", "", "\n\n; end\n"])
+    if r.random() < 0.3:
+        src = src.replace("\n", " ; c\n", r.randrange(1, 4))
+    return src
+
+def cli_cases(g, group, thorough):
+    r = g.rng
+    out = []
+    n = lambda q, t: t if thorough else q
+    if group == "run":
+        for _ in range(n(300, 3000)):
+            out.append(("-", run_prog(g), ""))
+        for f in sorted(os.listdir(os.path.join(REPO, "examples"))):
+            if f.endswith(".s"):
+                out.append(("-", open(os.path.join(REPO, "examples", f)).read(), "abc\nhello\n"))
+    elif group == "shapes":
+        # every instruction alternative, executed (the printer and the interpreter are the judges)
+        for c in shapes(g, False)[:: (1 if thorough else 4)]:
+            if re.search(r"(?i)\b(jmp|j[a-z]+|loop[a-z]*)\s+start\b", c):
+                continue          # would spin forever
+            out.append(("-", c.replace("lab:\nhlt", "lab:\nprint flags\nhlt"), ""))
+    elif group == "prompt":
+        cmds = ["n\n", "next\n", "N\n", " next \n", "print reg\n", "print flags\n", "print mem 0 -> 20\n", "print mem 5:3\n", "print mem :7\n",
+                "PRINT REG\n", "garbage\n", "\n", "print\n", "print mem 9 -> 2\n", "print mem 1048575:5\n", "n n\n", "nextt\n", "print mem 0x10 -> 0x20\n"]
+        for i in range(n(250, 2500)):
+            mode = i % 4
+            src = run_prog(g, with_int3=(mode == 1), with_tf=(mode == 2))
+            flag = "i" if mode in (0, 3) else "-"
+            k = r.randrange(0, 60)
+            script = ""
+            for _ in range(k):
+                script += r.choice(cmds) if r.random() < 0.35 else "n\n"
+            end = r.randrange(4)
+            if end == 0:
+                script += r.choice(["q\n", "quit\n", "QUIT\n", " q \n"])
+            elif end == 1:
+                script += "n\n" * 400
+            elif end == 2:
+                script += "n"            # premature end of input, last line unterminated
+            out.append((flag, src, script))
+    elif group == "ints":
+        for _ in range(n(250, 2500)):
+            ah = r.choice([1, 2, 0x0A, 0x0A, 0x13, 0x0A, r.randrange(256)])
+            which = r.choice(["0x21", "0x10"])
+            cap = r.choice([0, 1, 2, 3, 5, 255])
+            seg = r.choice([0, 0, 0x1000, 0xFFFF, 0xFFF0, r.randrange(65536)])
+            off = r.choice([0, 5, 0xFFF0, 0xFFFD, 0xFFFF, r.randrange(65536)])
+            pre = f"mov ax, {seg}\nmov ds, ax\nmov es, ax\nmov bx, {off}\nmov byte [bx], {cap}\nmov dx, bx\nmov bp, bx\n"
+            pre += f"mov cx, {r.choice([0,1,3,7,40])}\nmov dl, {r.choice([0,1,4,65,200,255])}\nmov al, {r.choice([65,66,10,200,0])}\nmov ah, {ah}\nint {which}\n"
+            post = "print reg\nmov ax, 0\nmov ds, ax\nprint mem %d : 12\nprint flags\n" % (((seg * 16 + off) % 1048576) if ((seg * 16 + off) % 1048576) + 12 < 1048576 else 0)
+            stdin = r.choice(["", "\n", "a\n", "ab", "abc\n", "hello world\n", "x" * 300 + "\n", "line1\nline2\n", "\r\n", "tab\there\n"])
+            out.append(("-", "start:\n" + pre + post + ("mov ah, 1\nint 0x21\nprint reg\n" if r.random() < 0.3 else ""), stdin))
+    elif group == "prints":
+        for _ in range(n(250, 2500)):
+            setup = "".join("mov %s, %s\n" % (reg, g.num(0, 65535)) for reg in r.sample(REG16, 4))
+            setup += r.choice(["", "stc\n", "std\n", "sti\n", "mov ax, 0x7FFF\nadd ax, 1\n", "xor ax, ax\n"])
+            dl, _ = rand_data(g, 3)
+            a = r.choice([0, 1, 15, 16, 17, 0xFFFF0, 0xFFFFF, r.randrange(1048576)])
+            ln = r.choice([0, 1, 15, 16, 17, 31, 32, 100])
+            b = min(a + ln, 1048575)
+            cmds = [f"print mem {g.num(a, a)} -> {g.num(b, b)}", f"print mem {g.num(a, a)} : {g.num(ln, ln)}" if a + ln < 1048576 else "print reg",
+                    f"print mem : {ln}", "print reg", "print flags", f"PRINT MEM {b} -> {a}", f"print mem {1048576 + a} -> {1048576 + b}",
+                    f"print mem {g.num(a,a)}->{g.num(b,b)}"]
+            seg = r.choice([0, 0, 1, 0xFFFF, 0xF000, r.randrange(65536)])
+            body = setup + f"mov ax, {seg}\nmov ds, ax\n" + "\n".join(r.sample(cmds, 4)) + "\nprint reg\n" + r.choice(cmds) + "\n"
+            out.append(("-", "\n".join(dl) + "\nstart:\n" + body, ""))
+    elif group == "diag":
+        base_cases = errors(g, thorough, 0)
+        for c in base_cases:
+            out.append(("-", c, ""))
+            out.append(("-", "; header comment\n\n" + c.rstrip("\n"), ""))       # shifted lines, no trailing newline
+        # single-token corruptions at every token position of a valid program
+        valid = "v: db 5\nw: dw 7\nmacro m(a) -> inc a <-\ndef f {\ninc bx\n}\nstart:\nmov ax, 1\nm(cx)\nadd ax, word w\njnz lab\ncall f\nlab:\nprint reg\nint 3\nhlt"
+        toks = re.findall(r"\S+|\s+", valid)
+        for i, t in enumerate(toks):
+            if t.isspace():
+                continue
+            for repl in ["@", "mov", "5", "]", "zz9"]:
+                c = "".join(toks[:i] + [repl] + toks[i + 1:])
+                out.append(("-", c + r.choice(["", "\n"]), "n\n"))
+    elif group == "fuzz":
+        seeds = [run_prog(g) for _ in range(20)] + [PRELUDE + "macro m(a,b) -> mov a,b <-\nstart:\nm(ax,bx)\nhlt\n"]
+        alphabet = list(" \n\t;:,[](){}<>-\"'0123456789abcxyzMOVdbDW_") + [" ", "é", "\x00", "\x7f", " "]
+        for _ in range(n(400, 6000)):
+            s = list(r.choice(seeds))
+            for _ in range(r.randrange(1, 6)):
+                k = r.randrange(4)
+                pos = r.randrange(len(s) + 1)
+                if k == 0 and s:
+                    del s[min(pos, len(s) - 1)]
+                elif k == 1:
+                    s.insert(pos, r.choice(alphabet))
+                elif k == 2 and s:
+                    s[min(pos, len(s) - 1)] = r.choice(alphabet)
+                else:
+                    a, b = sorted([r.randrange(len(s) + 1), r.randrange(len(s) + 1)])
+                    s[pos:pos] = s[a:b]
+            out.append((r.choice(["-", "-", "i"]), "".join(s), r.choice(["", "n\n" * 50, "q\n"])))
+        for special in ["", "\n", ";", "start:", "start: hlt", "\"", "[[[[", "9" * 5000, "start:\nmov ax, " + "9" * 100000 + "\n", "a:" * 2000,
+                        "start:\n" + "nop\n" * 5000, "db \"" + "x" * 70000 + "\"\nstart:\n"]:
+            out.append(("-", special, ""))
+    else:
+        sys.exit("unknown cli group " + group)
+    return out
+
 def main():
     group, tier, seed = sys.argv[1], sys.argv[2], int(sys.argv[3])
+    shard, nshards = (int(sys.argv[4]), int(sys.argv[5])) if len(sys.argv) > 5 else (0, 1)
     thorough = tier == "thorough"
     g = G(seed * 7919 + hash(group) % 1000 if False else seed * 7919 + sum(map(ord, group)))
-    if group == "shapes":
+    if os.environ.get("VERIF_L3_KIND", "asm") == "cli":
+        cases = []
+    elif group == "shapes":
         cases = shapes(g, thorough)
     elif group == "progs":
         cases = progs(g, thorough, 6000 if thorough else 600)
@@ -404,8 +569,14 @@ def main():
         sys.exit("unknown group " + group)
     kind = os.environ.get("VERIF_L3_KIND", "asm")
     w = sys.stdout.write
-    for c in cases:
-        w(kind + " " + enc(c) + "\n")
+    if kind == "cli":
+        for i, (flag, src, stdin) in enumerate(cli_cases(g, group, thorough)):
+            if i % nshards == shard:
+                w("cli " + flag + " | " + enc(src) + " | " + enc(stdin) + "\n")
+        return
+    for i, c in enumerate(cases):
+        if i % nshards == shard:
+            w(kind + " " + enc(c) + "\n")
 
 if __name__ == "__main__":
     main()
